@@ -9,7 +9,7 @@ ID = "C14"
 RULE = ("Input A (nucleotide over ACGTUN or protein over 20 aa + BZX, generated families / unrelated / degenerate sets, any case) and "
         "A' = A with a generated mask: each residue's case flipped with drawn probability and, for nucleotides, T<->U swapped "
         "with drawn probability (plus 'all lower', 'all upper', 'all T->U' and class-wise masks: one class of letters lower, the rest upper, and vice versa); same type/penalties/threads; array and file "
-        "API, the latter with distinct, all-equal or pooled record names and the records in one file or split over 2..3 files. Oracle: the gap pattern of every row is identical in both runs and the letters of A' rows are A' letters. "
+        "API, the latter with distinct, all-equal or pooled record names and the records in one file, split over 2..3 files, or presented as an aligned FASTA / MSF / Clustal file. Oracle: the gap pattern of every row is identical in both runs and the letters of A' rows are A' letters. "
         "Non-trivial = mask changes >= 1 residue and the result has gaps; distinct by hash of the case.")
 ASSUMPTIONS = ["pairs whose detected kind differs between A and A' are discarded and counted only when the residues satisfy neither premise of C13 (there the kind is not defined); otherwise the rows are compared as usual"]
 BUDGET = {"quick": dict(examples=500, workers=12, seconds=75), "thorough": dict(examples=1200, workers=16, seconds=600)}
@@ -55,7 +55,9 @@ def cases(draw, tier):
             # the property does not ask for distinct names: records may share a name (all equal / a pool of two)
             "name_mode": draw(st.sampled_from(["distinct", "distinct", "all_equal", "pool2"])),
             # file API: the records in one file or split over 2..3 files (unequal parts) read into one object
-            "nfiles": draw(st.sampled_from([1, 1, 2, 3])), "split_seed": draw(st.integers(0, 2 ** 16))}
+            "nfiles": draw(st.sampled_from([1, 1, 2, 3])), "split_seed": draw(st.integers(0, 2 ** 16)),
+            # the records may also come as an aligned FASTA / MSF / Clustal presentation (their gaps are irrelevant, C04)
+            "infmt": draw(st.sampled_from(["fasta", "fasta", "fasta", "afa", "msf", "clu"])), "inseed": draw(st.integers(0, 999))}
 
 
 def strategy(tier):
@@ -107,6 +109,20 @@ def check(case):
             if cuts:
                 cl.append("files=%d" % (len(cuts) + 1))
                 ra, rb = both(lambda x: kal.align_named_files(names, x, cfg, cuts))
+            elif case.get("infmt", "fasta") != "fasta" and nm == "distinct" and all(a):
+                from vlib import present
+                cl.append("input=" + case["infmt"])
+
+                def via_fmt(x):
+                    ch = {"fmt": "fasta" if case["infmt"] == "afa" else case["infmt"], "gapmode": "aligned", "gapfrac": 0.2, "seed": case.get("inseed", 0),
+                          "width": 60, "kindletter": "P" if kind == "protein" else "N"}
+                    fp = kal.runner.workdir().write(present.render_chunk(names, x, ch).encode("latin-1"), ".in")
+                    r = kal.run_files([fp], cfg)
+                    if r["read_rcs"] != [0] or r["run_rc"] != 0 or r["msa"] is None:
+                        raise kal.Rejected("read/run failed", {"read": r["read_rcs"], "run": r["run_rc"]})
+                    n_, rows_ = kal.msa_rows(r["msa"])
+                    return {"names": n_, "rows": rows_, "biotype": r["msa"]["biotype"]}
+                ra, rb = both(via_fmt)
             else:
                 ra, rb = both(lambda x: kal.align_named(names, x, cfg))
             if ra["biotype"] != rb["biotype"] and kind is None:
